@@ -7,7 +7,7 @@ cd "$T" || exit 2
 R=$(mktemp)
 PYTHONPATH="$T" /venv/bin/python -m pytest -q -p no:cacheprovider --timeout=900 --continue-on-collection-errors -n 8 --dist loadfile -rA "$@" 2>&1 \
   | grep -E '^(PASSED|FAILED|ERROR) ' | sed 's/ - .*//' > "$R"
-F=$(grep -E '^FAILED ' "$R" | cut -d' ' -f2 | tr '\n' ' ')
+F=$(grep -E '^FAILED ' "$R" | cut -d' ' -f2 | sed 's/::.*//' | sort -u | tr '\n' ' ')   # whole files: some tests need files written by an earlier test of their file
 if [ -n "$F" ]; then
   PYTHONPATH="$T" /venv/bin/python -m pytest -q -p no:cacheprovider --timeout=900 -rA $F 2>&1 \
     | grep -E '^(PASSED|FAILED|ERROR) ' | sed 's/ - .*//' > "$R.2"
